@@ -479,6 +479,12 @@ class _Sens:
 
 
 SUBCHECKS = {"sensors": _Sens(), "node": _Node(), "everyimu": _Every(), "history": _Hist(), "loop": _Loop(), "sched": _Sched()}
+# the node keeps x and W across callbacks: every step function receives what the previous one returned, over tens of thousands of
+# callbacks and for a deep copy of a live node (the machinery lives next to the other node drivers in c20.py)
+from . import c20 as _c20  # noqa: E402
+
+SUBCHECKS["nodeflow"] = _c20._Flow()
 REPLAY = {"sensors": lambda c: explore_sensors(c).fails, "loop": lambda c: explore_loop(c).fails, "sched": lambda c: explore_sched(c).fails,
           "node": lambda c: explore_node_outputs(c).fails, "everyimu": lambda c: explore_predict_every_imu(c).fails,
           "history": lambda c: explore_history_independence(c).fails}
+REPLAY["nodeflow"] = lambda c: _c20.explore_nodeflow(c).fails
